@@ -8,6 +8,7 @@ import (
 
 	"github.com/spikeekips/mitum/base"
 	"github.com/spikeekips/mitum/isaac"
+	"github.com/spikeekips/mitum/util"
 	"github.com/spikeekips/mitum/zzverif/vlib"
 )
 
@@ -150,7 +151,23 @@ func c06sDomain(heights []int64, rounds []uint64) []c06sPos {
 	return ps
 }
 
+// c06sBox returns a Ballotbox whose last point is unset. NewBallotbox allocates a
+// 65535-slot voteproof channel (1 MB), so one constructed box is kept per process and
+// its lsp field (the only field SetLastPoint, isNewBallot and LastPoint touch) is
+// replaced by a fresh empty one, exactly as the constructor does.
 func c06sBox() *Ballotbox {
+	if c06sTheBox == nil {
+		c06sTheBox = c06sNewBox()
+	}
+
+	c06sTheBox.lsp = util.EmptyLocked[isaac.LastPoint]()
+
+	return c06sTheBox
+}
+
+var c06sTheBox *Ballotbox
+
+func c06sNewBox() *Ballotbox {
 	return NewBallotbox(
 		base.NewStringAddress("c06-local"),
 		func() base.Threshold { return base.Threshold(100) },
@@ -174,6 +191,7 @@ func TestVerifC06(t *testing.T) {
 	r.Set("b_seq_heights", seqHeights)
 	r.Set("b_seq_rounds", seqRounds)
 	r.Set("b_seq_len", 3)
+	r.Assume("Ballotbox.SetLastPoint / isNewBallot / LastPoint read and write only the lsp field; a 'fresh' box is the constructed box with a new empty lsp")
 
 	dom := c06sDomain(heights, rounds)
 	lasts := append([]c06sPos{{zero: true}}, dom...)
